@@ -5,6 +5,7 @@ import Mutiny.Model.IncAvg
 import Mutiny.Model.Stack
 import Mutiny.Model.Wake
 import Mutiny.Model.Multi
+import Mutiny.Model.MmapLog
 /-! Uniform interface of the executable models for the replay driver. -/
 namespace Driver
 
@@ -280,6 +281,30 @@ def multiMachine : Machine Multi.St where
   describe s t := reprStr (s.thr t) ++ s!" used={s.used} vacant={s.vacant} count={s.count} slock={s.slock}"
   cmpVal tag := tag != "sync.spin" && tag != "sm.sync.lock" && tag != "sm.sync.peek" && tag != "sm.create.count" && tag != "sm.create.vacant" && tag != "sm.running"
 
+/-! ### M9 MmapLog -/
+open Mutiny in
+def mmapMachine : Machine MmapLog.St where
+  call s t op args :=
+    let idle := s.thr t == .idle
+    match op, args with
+    | "send", [v]    => if idle then some (MmapLog.apply s (.send t v.toNat!)) else none
+    | "subnew", []   => if idle then some (MmapLog.apply s (.subNew t)) else none
+    | "subsplit", [] => if idle then some (MmapLog.apply s (.subSplit t)) else none
+    | "subjoined", [] => if idle then some (MmapLog.apply s (.subJoined t)) else none
+    | "poll", [i]    => if idle && i.toNat! < s.subs.length then some (MmapLog.apply s (.poll t i.toNat!)) else none
+    | _, _ => none
+  tag s t := MmapLog.tagOf (s.thr t)
+  step s t := MmapLog.step s t
+  result s t := match s.thr t with
+    | .done r => some r.show
+    | _ => none
+  ack s t := MmapLog.apply s (.ack t)
+  observe s k := match k with
+    | "log" => some (showList (s.log.map (·.2)))
+    | _ => none
+  describe s t := reprStr (s.thr t) ++ s!" pubTail={s.pubTail} consTail={s.consTail} subs={reprStr s.subs}"
+  cmpVal tag := tag != "mm.p.fetch" && tag != "mm.s.load" && tag != "mm.c.fetch"
+
 def lookup (kv : List (String × String)) (k : String) : Option String :=
   (kv.find? (·.1 == k)).map (·.2)
 
@@ -290,6 +315,7 @@ def mkMachine (kv : List (String × String)) : Option AnyMachine :=
   | some "lockring" => some { σ := _, m := lockRingMachine, s := Mutiny.LockRing.init n }
   | some "incavg" => some { σ := _, m := incAvgMachine, s := Mutiny.IncAvg.init }
   | some "stack" => some { σ := _, m := stackMachine, s := Mutiny.Stack.init n }
+  | some "mmaplog" => some { σ := _, m := mmapMachine, s := Mutiny.MmapLog.init }
   | some "multi" =>
       let mx := ((lookup kv "MAX").getD "1").toNat!
       let fl := if lookup kv "flavor" == some "ogre" then Mutiny.Multi.Flavor.ogreArc else .arc
